@@ -6,6 +6,7 @@ use crate::engine::{self, violation};
 use crate::rt::{self, Actor, Ctx, RtCfg, OPS};
 use crate::{gen_rng, swarm_cfg, Swarm};
 use may::io::SplitIo;
+use may::io::{CoIo, WaitIo};
 use may::net::{TcpListener, TcpStream, UdpSocket};
 use may::os::unix::net::{UnixDatagram, UnixStream};
 use std::io::{Read, Write};
@@ -88,6 +89,9 @@ enum Transport {
     UnixRawReader,
     Tcp,
     UnixSplit,
+    /// std sockets wrapped by `CoIo::new`; the reader does the syscalls itself on the inner
+    /// socket and blocks with `WaitIo::wait_io` (coroutine only)
+    CoIoWait,
 }
 
 #[derive(Debug, Clone)]
@@ -102,6 +106,14 @@ struct Conn {
     small_bufs: bool,
     /// the same connection also carries a stream in the other direction
     duplex_bytes: Option<usize>,
+    /// plain `write` calls become `write_vectored` over 1-3 slices (TcpStream has its own
+    /// vectored path, the others fall back to std's default)
+    vectored: bool,
+    /// the writer waits after every write until the reader has taken the bytes
+    lock_step: bool,
+    /// the reader's end has a read timeout and the reader simply retries after a time-out: the
+    /// stream must still arrive complete (a time-out that races with arriving data loses nothing)
+    read_timeout: Option<u64>,
 }
 
 #[derive(Debug)]
@@ -145,13 +157,52 @@ fn gen(seed: u64) -> Params {
                 write_all: r.chance(1, 2),
                 small_bufs: r.chance(2, 3),
                 duplex_bytes: if duplex { Some(r.range(0, 9000) as usize) } else { None },
+                vectored: false,
+                lock_step: false,
+                read_timeout: None,
             }
         })
         .collect();
+    let mut conns: Vec<Conn> = conns;
+    // drawn last: everything above is the same as before these variants existed
+    for c in conns.iter_mut() {
+        let v = r.below(4);
+        if c.transport == Transport::UnixPair && v % 2 == 0 {
+            c.transport = Transport::CoIoWait;
+            c.reader = Ctx::Co;
+        }
+        c.vectored = v >= 2;
+        c.lock_step = r.chance(1, 3);
+        if (c.transport == Transport::UnixPair || c.transport == Transport::Tcp) && r.chance(1, 3) {
+            c.read_timeout = Some(*r.pick(&[100_000u64, 300_000, 1_000_000, 3_000_000]));
+        }
+        if c.lock_step {
+            // every write is followed by a wait for the reader: keep the number of writes small
+            let avg_w = (c.chunk.iter().sum::<usize>() / c.chunk.len()).max(1);
+            c.bytes = c.bytes.min(60 * avg_w);
+            if let Some(d) = c.duplex_bytes.as_mut() {
+                *d = (*d).min(60 * avg_w);
+            }
+        }
+    }
     Params { rt, conns }
 }
 
-fn writer_body(seed: u64, ci: usize, dir: usize, mut w: W, c: &Conn, total: usize, done_writing: &AtomicBool, shutdown: impl FnOnce()) {
+/// shared by the writer and the reader of one direction of a connection
+struct DirState {
+    done_writing: AtomicBool,
+    /// bytes the reader has taken so far
+    consumed: std::sync::atomic::AtomicUsize,
+}
+
+impl DirState {
+    fn new() -> Arc<DirState> {
+        Arc::new(DirState { done_writing: AtomicBool::new(false), consumed: std::sync::atomic::AtomicUsize::new(0) })
+    }
+}
+
+fn writer_body(seed: u64, ci: usize, dir: usize, mut w: W, c: &Conn, total: usize, st: &DirState, shutdown: impl FnOnce()) {
+    let done_writing = &st.done_writing;
     let who = format!("writer c{} d{}", ci, dir);
     let mut off = 0usize;
     let mut k = 0usize;
@@ -166,7 +217,16 @@ fn writer_body(seed: u64, ci: usize, dir: usize, mut w: W, c: &Conn, total: usiz
             }
             off += want;
         } else {
-            match w.write(&data) {
+            let res = if c.vectored {
+                // 1-3 slices, possibly an empty one in front
+                let a = (k * 7) % (want + 1);
+                let b = a + ((k * 13) % (want - a + 1));
+                let slices = [std::io::IoSlice::new(&data[..a]), std::io::IoSlice::new(&data[a..b]), std::io::IoSlice::new(&data[b..])];
+                w.write_vectored(&slices)
+            } else {
+                w.write(&data)
+            };
+            match res {
                 Ok(0) => violation(&format!("{}: write returned 0 for {} bytes", who, want)),
                 Ok(n) => {
                     if n > want {
@@ -178,6 +238,37 @@ fn writer_body(seed: u64, ci: usize, dir: usize, mut w: W, c: &Conn, total: usiz
             }
         }
         o.done();
+        if c.lock_step {
+            // request / response traffic: the next write comes only when the reader has taken
+            // everything written so far - the readiness event of EVERY write is the last one for
+            // a while, a reader that misses it is not rescued by the event of the next write
+            let o = OPS.begin(format!("{} waits for the reader to take the first {} bytes", who, off));
+            let mut spins = 0u32;
+            let mut nap = 10_000u64;
+            while st.consumed.load(Ordering::Relaxed) < off {
+                if !may::coroutine::is_coroutine() {
+                    // a thread wakes at the very step the reader reports its progress
+                    engine::wait_key(&st.consumed as *const _ as usize, Some(5_000_000));
+                    continue;
+                }
+                spins += 1;
+                if spins < 8 {
+                    rt::relax();
+                } else {
+                    rt::nap(nap);
+                    nap = (nap * 2).min(2_000_000);
+                }
+            }
+            o.done();
+            if let Some(d) = c.read_timeout {
+                // the reader is (about to be) blocked again with a fresh time-out: let the next
+                // piece of data arrive around the moment that time-out expires
+                if off < total {
+                    let early = [0u64, 50, 200, 1_000, 5_000, d / 2][k % 6];
+                    rt::nap(d.saturating_sub(early));
+                }
+            }
+        }
     }
     done_writing.store(true, Ordering::Relaxed);
     // half-close first: the fd must still be open (and not reused) for the shutdown
@@ -185,10 +276,12 @@ fn writer_body(seed: u64, ci: usize, dir: usize, mut w: W, c: &Conn, total: usiz
     drop(w);
 }
 
-fn reader_body(seed: u64, ci: usize, dir: usize, mut r: R, c: &Conn, total: usize, done_writing: &AtomicBool) {
+fn reader_body(seed: u64, ci: usize, dir: usize, mut r: R, c: &Conn, total: usize, st: &DirState) {
+    let done_writing = &st.done_writing;
     let who = format!("reader c{} d{}", ci, dir);
     let mut off = 0usize;
     let mut k = 0usize;
+    let mut timeouts = 0u32;
     loop {
         let cap = c.rbuf[k % c.rbuf.len()];
         k += 1;
@@ -229,6 +322,14 @@ fn reader_body(seed: u64, ci: usize, dir: usize, mut r: R, c: &Conn, total: usiz
                     }
                 }
                 off += n;
+                st.consumed.store(off, Ordering::Relaxed);
+                engine::notify(&st.consumed as *const _ as usize);
+            }
+            Err(e) if c.read_timeout.is_some() && (e.kind() == std::io::ErrorKind::TimedOut || e.kind() == std::io::ErrorKind::WouldBlock) => {
+                timeouts += 1;
+                if timeouts > 50_000 {
+                    violation(&format!("{}: 50000 read time-outs at offset {} of {}", who, off, total));
+                }
             }
             Err(e) => violation(&format!("{}: read failed at offset {}: {}", who, off, e)),
         }
@@ -282,6 +383,10 @@ pub fn run_stream(seed: u64, mut ov: impl FnMut(&mut engine::Cfg)) -> ! {
                 } else {
                     let s1c = s1.try_clone().expect("clone");
                     let s2c = s2.try_clone().expect("clone");
+                    if let Some(d) = c.read_timeout {
+                        s1c.set_read_timeout(Some(std::time::Duration::from_nanos(d))).expect("set_read_timeout");
+                        s2c.set_read_timeout(Some(std::time::Duration::from_nanos(d))).expect("set_read_timeout");
+                    }
                     let (f1, f2) = (s1.as_raw_fd(), s2.as_raw_fd());
                     let sh = move |fd: i32| {
                         move || unsafe {
@@ -319,6 +424,25 @@ pub fn run_stream(seed: u64, mut ov: impl FnMut(&mut engine::Cfg)) -> ! {
                     (mayp, raw)
                 }
             }
+            Transport::CoIoWait => {
+                let (x, y) = std::os::unix::net::UnixStream::pair().expect("pair");
+                if c.small_bufs {
+                    set_bufs(x.as_raw_fd(), 2304, 2304);
+                    set_bufs(y.as_raw_fd(), 2304, 2304);
+                }
+                let mk = |s: std::os::unix::net::UnixStream| CoIo::new(s).unwrap_or_else(|_| violation("CoIo::new failed"));
+                let (xr, yr) = (mk(x.try_clone().expect("clone")), mk(y.try_clone().expect("clone")));
+                let (xw, yw) = (mk(x), mk(y));
+                let (fx, fy) = (xw.as_raw_fd(), yw.as_raw_fd());
+                (
+                    (Some(Box::new(WaitIoReader(xr)) as R), Some(Box::new(xw) as W), Box::new(move || unsafe {
+                        libc::shutdown(fx, libc::SHUT_WR);
+                    })),
+                    (Some(Box::new(WaitIoReader(yr)) as R), Some(Box::new(yw) as W), Box::new(move || unsafe {
+                        libc::shutdown(fy, libc::SHUT_WR);
+                    })),
+                )
+            }
             Transport::Tcp => {
                 let l = TcpListener::bind("127.0.0.1:0").expect("bind");
                 let addr = l.local_addr().unwrap();
@@ -349,6 +473,10 @@ pub fn run_stream(seed: u64, mut ov: impl FnMut(&mut engine::Cfg)) -> ! {
                 // does not drive; blocking writers are exercised on AF_UNIX sockets instead
                 let _ = c.small_bufs;
                 let (sac, sbc) = (sa.try_clone().expect("clone"), sb.try_clone().expect("clone"));
+                if let Some(d) = c.read_timeout {
+                    sac.set_read_timeout(Some(std::time::Duration::from_nanos(d))).expect("set_read_timeout");
+                    sbc.set_read_timeout(Some(std::time::Duration::from_nanos(d))).expect("set_read_timeout");
+                }
                 let (fa, fb) = (sa.as_raw_fd(), sb.as_raw_fd());
                 (
                     (Some(Box::new(sac) as R), Some(Box::new(KeepTcp(sa)) as W), Box::new(move || unsafe {
@@ -366,10 +494,12 @@ pub fn run_stream(seed: u64, mut ov: impl FnMut(&mut engine::Cfg)) -> ! {
         let (wctx, rctx) = match c.transport {
             Transport::UnixRawWriter => (Ctx::Thread, c.reader),
             Transport::UnixRawReader => (c.writer, Ctx::Thread),
+            // wait_io is for coroutines only, and with a duplex stream either side reads
+            Transport::CoIoWait => (Ctx::Co, Ctx::Co),
             _ => (c.writer, c.reader),
         };
         // direction 0: A writes, B reads
-        let done0 = Arc::new(AtomicBool::new(false));
+        let done0 = DirState::new();
         {
             let (c2, d) = (c.clone(), done0.clone());
             let w = a_w.unwrap();
@@ -383,7 +513,7 @@ pub fn run_stream(seed: u64, mut ov: impl FnMut(&mut engine::Cfg)) -> ! {
         // direction 1 on the same connection
         match c.duplex_bytes {
             Some(n) => {
-                let done1 = Arc::new(AtomicBool::new(false));
+                let done1 = DirState::new();
                 {
                     let (c2, d) = (c.clone(), done1.clone());
                     let w = b_w.unwrap();
@@ -424,10 +554,33 @@ impl Write for KeepFd {
         self.0.flush()
     }
 }
+/// a reader that does its own non-blocking reads on the inner socket and blocks with wait_io
+struct WaitIoReader(CoIo<std::os::unix::net::UnixStream>);
+impl Read for WaitIoReader {
+    fn read(&mut self, buf: &mut [u8]) -> std::io::Result<usize> {
+        let mut waits = 0u32;
+        loop {
+            engine::point();
+            match (&*self.0.inner()).read(buf) {
+                Err(e) if e.kind() == std::io::ErrorKind::WouldBlock => {
+                    waits += 1;
+                    if waits > 100_000 {
+                        violation("wait_io keeps returning although the socket has nothing to read (busy loop)");
+                    }
+                    self.0.wait_io();
+                }
+                r => return r,
+            }
+        }
+    }
+}
 struct KeepTcp(TcpStream);
 impl Write for KeepTcp {
     fn write(&mut self, b: &[u8]) -> std::io::Result<usize> {
         self.0.write(b)
+    }
+    fn write_vectored(&mut self, bufs: &[std::io::IoSlice<'_>]) -> std::io::Result<usize> {
+        self.0.write_vectored(bufs)
     }
     fn flush(&mut self) -> std::io::Result<()> {
         self.0.flush()
